@@ -2,6 +2,7 @@ import RsModel.Lemmas.Rope
 import RsModel.Lemmas.RopeSlice
 import RsModel.Lemmas.RopeStarts
 import RsModel.Lemmas.RopeLines
+import RsModel.Lemmas.RopeChars
 /-!
 # C16 — Rope behaves exactly like the string it represents
 `render r` is the flat string a rope stands for.
@@ -216,5 +217,83 @@ theorem c16_lines (p : RProgS) (hp : p.TextsOK) (r : Rope) (hr : p.eval = .ok r)
   rw [linesR_spec r ((c16_program p hp).2 r hr).inv trailing, lines_eq_spec]
 
 example : ((Rope.full [([97, 10], 0), ([], 2), ([98], 2), ([99, 10], 3)]).linesR true).map Rope.render = [[97, 10], [98, 99, 10], []] := by decide
+
+
+/-! ## `char_indices()`: offsets and scalar values -/
+
+/-- the literals are valid UTF-8 (`&str`): besides starting on a char boundary, every lead byte is followed inside the literal by
+the continuation bytes it announces -/
+def RProgS.TextsV : RProgS → Prop
+  | .new => True
+  | .from_ t => Rope.Utf8V t ∧ pieceOK t = true
+  | .iter ts => ∀ t ∈ ts, Rope.Utf8V t ∧ pieceOK t = true
+  | .add p t => p.TextsV ∧ Rope.Utf8V t ∧ pieceOK t = true
+  | .append a b => a.TextsV ∧ b.TextsV
+  | .slice p _ _ => p.TextsV
+
+theorem RProgS.TextsV.ok : ∀ (p : RProgS), p.TextsV → p.TextsOK
+  | .new, _ => trivial
+  | .from_ _, h => h.2
+  | .iter _, h => fun t ht => (h t ht).2
+  | .add p _, h => ⟨RProgS.TextsV.ok p h.1, h.2.2⟩
+  | .append a b, h => ⟨RProgS.TextsV.ok a h.1, RProgS.TextsV.ok b h.2⟩
+  | .slice p _ _, h => RProgS.TextsV.ok p h
+
+/-- the string a program denotes is valid UTF-8 (slicing off a boundary fails instead) -/
+theorem c16_flat_valid : ∀ (p : RProgS), p.TextsV → ∀ t, p.flat = .ok t → Rope.Utf8V t ∧ pieceOK t = true
+  | .new, _, t, ht => by cases ht; exact ⟨Rope.utf8V_nil, rfl⟩
+  | .from_ x, h, t, ht => by cases ht; exact h
+  | .iter ts, h, t, ht => by cases ht; exact Rope.utf8V_flatten ts h
+  | .add p x, h, t, ht => by
+    simp only [RProgS.flat] at ht
+    cases hp : p.flat with
+    | error e => rw [hp] at ht; simp [Except.map] at ht
+    | ok y =>
+      rw [hp] at ht; simp only [Except.map, Except.ok.injEq] at ht; subst ht
+      obtain ⟨a, b⟩ := c16_flat_valid p h.1 y hp
+      exact ⟨Rope.utf8V_append _ _ a h.2.1, Rope.pieceOK_append _ _ b h.2.2⟩
+  | .append a b, h, t, ht => by
+    simp only [RProgS.flat] at ht
+    cases ha : a.flat with
+    | error e => rw [ha] at ht; simp [Except.bind] at ht
+    | ok x =>
+      cases hb : b.flat with
+      | error e => rw [ha, hb] at ht; simp [Except.bind, Except.map] at ht
+      | ok y =>
+        rw [ha, hb] at ht; simp only [Except.bind, Except.map, Except.ok.injEq] at ht; subst ht
+        obtain ⟨a1, a2⟩ := c16_flat_valid a h.1 x ha
+        obtain ⟨b1, b2⟩ := c16_flat_valid b h.2 y hb
+        exact ⟨Rope.utf8V_append _ _ a1 b1, Rope.pieceOK_append _ _ a2 b2⟩
+  | .slice p a b, h, t, ht => by
+    simp only [RProgS.flat] at ht
+    cases hp : p.flat with
+    | error e => rw [hp] at ht; simp [Except.bind] at ht
+    | ok x =>
+      rw [hp] at ht
+      simp only [Except.bind, strSlice] at ht
+      obtain ⟨v1, v2⟩ := c16_flat_valid p h x hp
+      split at ht
+      · cases ht
+      · split at ht
+        · cases ht
+        · split at ht
+          · rename_i h1 h2 h3
+            cases ht
+            simp only [Bool.and_eq_true] at h3
+            exact Rope.utf8V_bsub x a b v1 v2 (by omega) (by omega) h3.1 h3.2
+          · cases ht
+
+/-- **`char_indices()`** of every rope a program can build yields exactly the (byte offset, scalar value) pairs of
+`str::char_indices` on the flat string, whatever the division into pieces -/
+theorem c16_char_indices (p : RProgS) (hp : p.TextsV) (r : Rope) (hr : p.eval = .ok r) :
+    r.charIndices = Rope.strCharIndices 0 0 r.render := by
+  obtain ⟨e1, e2⟩ := c16_program p (RProgS.TextsV.ok p hp)
+  rw [hr] at e1
+  simp only [Except.map] at e1
+  exact Rope.charIndices_spec r (e2 r hr) (c16_flat_valid p hp r.render e1.symm).1
+
+/-- non-vacuity: "aé" + "b€" split into pieces; the two-byte and three-byte chars decode to U+00E9 and U+20AC -/
+example : (Rope.full [([97, 0xC3, 0xA9], 0), ([], 3), ([98, 0xE2, 0x82, 0xAC], 3)]).charIndices
+    = [(0, 97), (1, 0xE9), (3, 98), (4, 0x20AC)] := by decide
 
 end Rs
